@@ -27,6 +27,7 @@ class OsuToSM(ConvertBase):
             dict(offset="offset", column="column", length="length"),
         )
         sm.bpms = cls.cast(osu.bpms, SMBpmList, dict(offset="offset", bpm="bpm"))
+        sm.description = osu.version
 
         sms = SMMapSet()
 
